@@ -44,6 +44,7 @@ class SharedModel:
         self.sites: List[Site] = []
         self.locked_regions: Dict[str, List[ast.With]] = {}
         self.bad_lock_exprs: List[Tuple[FuncInfo, ast.With, str]] = []
+        self._lock_aliases: Dict[str, set] = {}
         self.dynamic_lock_exprs: List[Tuple[FuncInfo, ast.With, str, bool]] = []
         for fi in self.funcs:
             self._scan_function(fi)
@@ -193,10 +194,41 @@ class SharedModel:
         self.aliases[fi.where] = env
         # pass 2: mutation sites and lock regions
         stmts = [n for n in walk_no_nested(fi.node) if isinstance(n, ast.stmt)]
+        lock_aliases = set()
+        for st in stmts:
+            if isinstance(st, ast.Assign) and len(st.targets) == 1 and isinstance(st.targets[0], ast.Name) and self.is_lock_expr(st.value) is True:
+                # a local name for the one shared lock (bound once in this function)
+                nm = st.targets[0].id
+                binds = [x for x in stmts if isinstance(x, (ast.Assign, ast.AugAssign, ast.AnnAssign)) and any(isinstance(t, ast.Name) and t.id == nm for t in (x.targets if isinstance(x, ast.Assign) else [x.target]))]
+                if len(binds) == 1:
+                    lock_aliases.add(nm)
+        self._lock_aliases[fi.where] = lock_aliases
+
+        def is_lock(e: ast.AST) -> Optional[bool]:
+            if isinstance(e, ast.Name) and e.id in lock_aliases:
+                return True
+            return self.is_lock_expr(e)
+
+        # `L.acquire()` directly followed by `try: ... finally: L.release()` is a locked region (the try body)
+        for parent in [fi.node] + list(walk_no_nested(fi.node)):
+            for field in ("body", "orelse", "finalbody"):
+                lst = getattr(parent, field, None)
+                if not isinstance(lst, list):
+                    continue
+                for a, b in zip(lst, lst[1:]):
+                    if isinstance(a, ast.Expr) and isinstance(a.value, ast.Call) and isinstance(a.value.func, ast.Attribute) and a.value.func.attr == "acquire" and not a.value.args \
+                            and is_lock(a.value.func.value) is True and isinstance(b, ast.Try) and not b.handlers and b.finalbody:
+                        rel = b.finalbody[0]
+                        if isinstance(rel, ast.Expr) and isinstance(rel.value, ast.Call) and isinstance(rel.value.func, ast.Attribute) and rel.value.func.attr == "release" \
+                                and unparse(rel.value.func.value) == unparse(a.value.func.value):
+                            region = ast.With(items=[ast.withitem(context_expr=a.value.func.value, optional_vars=None)], body=b.body)
+                            ast.copy_location(region, b)
+                            region._origin = b  # type: ignore[attr-defined]
+                            self.locked_regions.setdefault(fi.where, []).append(region)
         for st in stmts:
             if isinstance(st, ast.With):
                 for item in st.items:
-                    v = self.is_lock_expr(item.context_expr)
+                    v = is_lock(item.context_expr)
                     if v is True:
                         self.locked_regions.setdefault(fi.where, []).append(st)
                     elif v is False:
@@ -289,6 +321,13 @@ class SharedModel:
                             callee = None
                     if callee is not None:
                         self.callers.setdefault(callee.where, []).append((fi, node, self.in_locked_region(fi, node)))
+                # a method of the class taken as a value (`f = self._a if c else self._b; f(x)`) counts as called where referenced
+                if isinstance(node, ast.Attribute) and isinstance(node.ctx, ast.Load) and isinstance(node.value, ast.Name) and node.value.id in (self_n, "cls", self.cname, "self"):
+                    is_callee = any(isinstance(n2, ast.Call) and n2.func is node for n2 in walk_no_nested(fi.node))
+                    if not is_callee:
+                        cal = by_name.get(node.attr) or self.repo.method(self.cname, node.attr)
+                        if cal is not None and cal in self.funcs and cal.parent is None and not any("property" in d for d in cal.decorators):
+                            self.callers.setdefault(cal.where, []).append((fi, node, self.in_locked_region(fi, node)))
                 # a nested function passed around (e.g. as a callback) counts as called where it is referenced
                 if isinstance(node, ast.Name) and isinstance(node.ctx, ast.Load) and node.id in fi.nested:
                     parent_call = None
